@@ -36,6 +36,10 @@ static __thread int vs_self;
 extern unsigned work_units, in_slots, out_slots, total_in_slots, total_out_slots;
 extern bool eof;
 extern unsigned num_worker;
+extern bool decompress;
+extern unsigned bs100k;
+extern size_t in_granul, out_granul;
+size_t encoder_alloc_size(unsigned long mbs);
 
 enum { OP_NONE, OP_START, OP_LOCK, OP_JOIN, OP_READ, OP_WRITE, OP_KILL,
        OP_SUSPEND, OP_EXIT, OP_CREATED, OP_FLOCK };
@@ -86,6 +90,24 @@ static unsigned devpos;
 static uint64_t heap_live;
 
 #define BIT(s) (1ull << (s))
+
+/* ThreadSanitizer annotations.  In the tsan variant (-DVS_TSAN) the model
+   tells the race detector about exactly lbzip2's own synchronisation: mutex
+   lock/unlock, thread creation and join.  Execution boundaries of the
+   in-process mode are full barriers (everything of execution n happens before
+   everything of execution n+1), because the pool threads and the memory are
+   reused.  The turn hand-off itself stays invisible. */
+#ifdef VS_TSAN
+void __tsan_acquire(void *addr);
+void __tsan_release(void *addr);
+#define TS_ACQ(a) __tsan_acquire(a)
+#define TS_REL(a) __tsan_release(a)
+#else
+#define TS_ACQ(a) ((void)0)
+#define TS_REL(a) ((void)0)
+#endif
+static char ts_epoch_end, ts_epoch_start;
+static char ts_thread[VS_MAXT], ts_done[VS_MAXT];
 
 /* ---- low level ---------------------------------------------------------- */
 
@@ -224,7 +246,26 @@ check_invariants(void)
   if (work_units > num_worker) f |= 1;
   if (in_slots > total_in_slots && in_slots > 2) f |= 2;
   if (out_slots > total_out_slots) f |= 4;
-  if (vs_cfg.heap_limit && vs_rec->heap_peak > vs_cfg.heap_limit) f |= 8;
+  if (vs_cfg.heap_limit == 1 && total_out_slots > 0 && num_worker > 0) {
+    /* C13: the memory the slot discipline allows, from the program's own
+       numbers: W work units (one encoder, or one decoder with its 900000-word
+       array and tables), the input slots and the output slots; the slot totals
+       themselves must stay within twice the documented per-worker constants */
+    uint64_t lim = 512u << 10;
+    lim += (uint64_t)total_in_slots * (in_granul + 256);
+    if (!decompress) {
+      lim += (uint64_t)num_worker * (encoder_alloc_size(bs100k * 100000ul) + 4096);
+      lim += (uint64_t)total_out_slots * (in_granul + in_granul / 50 + 4096);
+    }
+    else {
+      lim += (uint64_t)num_worker * (900000ull * 4 + (256u << 10));
+      lim += (uint64_t)total_out_slots * ((uint64_t)out_granul + 256);
+    }
+    vs_rec->heap_limit_used = lim;
+    if (vs_rec->heap_peak > lim) f |= 8;
+    if (total_in_slots > 8 * num_worker || total_out_slots > 32 * num_worker + 4) f |= 16;
+  }
+  else if (vs_cfg.heap_limit > 1 && vs_rec->heap_peak > vs_cfg.heap_limit) f |= 8;
   if (f & ~vs_rec->inv_flags) {
     vtrace("  INVARIANT flags %x: wu=%u/%u in=%u/%u out=%u/%u\n", f, work_units,
            num_worker, in_slots, total_in_slots, out_slots, total_out_slots);
@@ -431,6 +472,8 @@ vs_mutex_lock(pthread_mutex_t *m)
   T[self].op = OP_NONE;
   if (!vs_inproc && pthread_mutex_lock(m) != 0)
     abort();
+  if (vs_inproc)
+    TS_ACQ(m);
   return 0;
 }
 
@@ -441,6 +484,8 @@ vs_mutex_unlock(pthread_mutex_t *m)
   if (MX[x].owner != self)
     return EPERM;
   MX[x].owner = -1;
+  if (vs_inproc)
+    TS_REL(m);
   if (!vs_inproc && pthread_mutex_unlock(m) != 0)
     abort();
   return 0;
@@ -453,6 +498,8 @@ vs_cond_wait(pthread_cond_t *c, pthread_mutex_t *m)
   if (MX[x].owner != self)
     return EPERM;
   MX[x].owner = -1;
+  if (vs_inproc)
+    TS_REL(m);
   if (!vs_inproc && pthread_mutex_unlock(m) != 0)
     abort();
   T[self].op = OP_LOCK;
@@ -464,6 +511,8 @@ vs_cond_wait(pthread_cond_t *c, pthread_mutex_t *m)
   T[self].op = OP_NONE;
   if (!vs_inproc && pthread_mutex_lock(m) != 0)
     abort();
+  if (vs_inproc)
+    TS_ACQ(m);
   return 0;
 }
 
@@ -505,6 +554,7 @@ vs_flockfile(FILE *f)
   sched_point(self);
   MX[x].owner = self;
   T[self].op = OP_NONE;
+  TS_ACQ(f);
 }
 
 void
@@ -512,6 +562,7 @@ vs_funlockfile(FILE *f)
 {
   int x = mx_get(f);
   MX[x].owner = -1;
+  TS_REL(f);
 }
 
 /* ---- threads ------------------------------------------------------------ */
@@ -519,6 +570,7 @@ vs_funlockfile(FILE *f)
 static void
 thread_finish(int id)
 {
+  TS_REL(&ts_done[id]);
   T[id].finished = 1;
   T[id].op = OP_EXIT;
   sched_point(id);
@@ -548,12 +600,15 @@ pool_main(void *a)
     if (_setjmp(base[id]) == 0) {
       fwait_raw(&GO[id]);
       if (!__atomic_load_n(&ending, __ATOMIC_ACQUIRE)) {
+        TS_ACQ(&ts_epoch_start);
+        TS_ACQ(&ts_thread[id]);
         T[id].op = OP_NONE;
         T[id].fn(T[id].arg);
         thread_finish(id);
       }
     }
     /* back at base */
+    TS_REL(&ts_epoch_end);
     if (__atomic_sub_fetch(&busy, 1, __ATOMIC_SEQ_CST) == 0)
       syscall(SYS_futex, &busy, FUTEX_WAKE_PRIVATE, 1, NULL, NULL, 0);
   }
@@ -594,6 +649,7 @@ vs_create(pthread_t *th, const pthread_attr_t *attr, void *(*fn)(void *), void *
       return EAGAIN;
     }
     T[id].real = pool[id];
+    TS_REL(&ts_thread[id]);
     __atomic_add_fetch(&busy, 1, __ATOMIC_SEQ_CST);
   }
   else {
@@ -625,6 +681,7 @@ vs_join(pthread_t th, void **ret)
   sched_point(self);
   T[self].op = OP_NONE;
   if (vs_inproc) {
+    TS_ACQ(&ts_done[t]);
     if (ret)
       *ret = NULL;
     return 0;
@@ -1088,6 +1145,12 @@ vs_inproc_init(int argc, char **argv)
 {
   if (getenv("VS_SPIN"))
     spin_iters = atoi(getenv("VS_SPIN"));
+  /* keep big blocks (encoder state, 3.6 MB decoder arrays) inside the heap
+     instead of mapping and unmapping them in every execution: fresh pages are
+     expensive here and the executions reuse the same few sizes */
+  mallopt(M_MMAP_THRESHOLD, 1 << 30);
+  mallopt(M_TRIM_THRESHOLD, 1 << 30);
+  mallopt(M_TOP_PAD, 64 << 20);
   size_t nd = __stop_lbz_data - __start_lbz_data, nb = __stop_lbz_bss - __start_lbz_bss;
   vs_inproc = 1;
   l_argc = argc;
@@ -1115,9 +1178,13 @@ vs_inproc_run(void)
   T[0].fn = main_wrapper;
   T[0].arg = NULL;
   __atomic_store_n(&busy, 1, __ATOMIC_SEQ_CST);
+  TS_REL(&ts_epoch_start);
+  TS_REL(&ts_thread[0]);
   fwake(&GO[0]);
   while ((b = __atomic_load_n(&busy, __ATOMIC_SEQ_CST)) != 0)
     syscall(SYS_futex, &busy, FUTEX_WAIT_PRIVATE, b, NULL, NULL, 0);
+
+  TS_ACQ(&ts_epoch_end);
 
   /* give back what the execution still held */
   for (i = 0; i < HT_SIZE && ht_n > 0; i++)
